@@ -170,7 +170,22 @@ func fnGetEx(ctx *cmdContext, args map[string]any) (output respValue, err error)
 		return
 	}
 
-	str, valueExists := ctx.dsc.getKeySetExpiration(keyName, expiration)
+	// without an expiration option GETEX is a plain GET: the deadline stays
+	changesExpiry := false
+	for name := range args {
+		switch name {
+		case "expiration.seconds", "expiration.milliseconds", "expiration.unix-time-seconds", "expiration.unix-time-milliseconds", "expiration.persist":
+			changesExpiry = true
+		}
+	}
+
+	var str string
+	var valueExists valueExists
+	if changesExpiry {
+		str, valueExists = ctx.dsc.getKeySetExpiration(keyName, expiration)
+	} else {
+		str, valueExists = ctx.dsc.getKey(keyName)
+	}
 	if valueExists == VALUE_WRONG_TYPE {
 		output.data = wrongTypeError
 	} else if valueExists == VALUE_EXISTS {
